@@ -116,7 +116,7 @@ def register(claim, not_yet):
           'Proved for every even filter length L >= 2, every even signal length N >= 2 (N < L included) and every commutative ring, on PyWavelets periodization formulas: the synthesis with the reversed '
           'analysis filters is the transpose of the analysis for ALL filter values (per_synthesis_is_transpose); for every orthonormal bank (PRBank with g = reverse(h)) the analysis is an isometry, '
           'energy(lo) + energy(hi) = energy(x) (isometry), and synthesis(analysis(x)) = x (C02.pr_periodization_even). In the C17 regime (even N >= L) the models of afb1d / sfb1d — the code paths, '
-          'tied by the correspondence — equal those formulas, so the same three statements hold for them (impl_isometry, impl_transpose, C02.impl_pr_periodization). THROUGH THE WHOLE PYRAMID: whenever every level input is even and at least as long as the filter (LevelsOK), the J-level module DWT1DForward is PyWavelets wavedec (C17J.DWT1DForward_per_eq_wavedec) and energy(yl) + sum_j energy(yh_j) = energy(x) for every J (wavedec_isometry, DWT1D_isometry). TWO DIMENSIONS: one level of the implementation model of AFB2D.forward with an orthonormal column bank and an orthonormal row bank (possibly different) preserves energy, |ll|^2 + |lh|^2 + |hl|^2 + |hh|^2 = |x|^2, for every image with even sides not shorter than the filters (C17K.AFB2D_isometry; the 1-D isometry lifted along rows and columns, iso_W, iso_H). Orthonormality of the shipped '
+          'tied by the correspondence — equal those formulas, so the same three statements hold for them (impl_isometry, impl_transpose, C02.impl_pr_periodization). THROUGH THE WHOLE PYRAMID: whenever every level input is even and at least as long as the filter (LevelsOK), the J-level module DWT1DForward is PyWavelets wavedec (C17J.DWT1DForward_per_eq_wavedec) and energy(yl) + sum_j energy(yh_j) = energy(x) for every J (wavedec_isometry, DWT1D_isometry). TWO DIMENSIONS: one level of the implementation model of AFB2D.forward with an orthonormal column bank and an orthonormal row bank (possibly different) preserves energy, |ll|^2 + |lh|^2 + |hl|^2 + |hh|^2 = |x|^2, for every image with even sides not shorter than the filters (C17K.AFB2D_isometry; the 1-D isometry lifted along rows and columns, iso_W, iso_H), and so does the whole J-level model of DWTForward whenever every level has even sides not shorter than the filters (C17K.DWT2D_isometry). Orthonormality of the shipped '
           'wavelet values is a hypothesis: measured on all haar/db/sym/coif wavelets by the operator oracle (A^T A = I, energy, backprop == inverse) and exactly on integers for '
           'synthesis(reversed filters) == analysis^T.' + TIE + BRK,
           'Lean 4 theorems (circular refinement, transpose, general isometry, PR) + exact correspondence + operator oracle', 'DESIGN.md §4 C17',
